@@ -483,6 +483,12 @@ def run(ctx: Ctx) -> int:
     one = outdircheck.run(ctx, 2, [["a"], ["a", "b"]], ["full", "summary"], ["pages"] if ctx.quick else ["link", "pages", "inv"], negative=False,
                           outputs=["both", "html", "inv"])
     ctx.extra["outdir"] = {k: v + one[k] for k, v in ctx.extra["outdir"].items()}
+    # ---- the template lookup over a history of additions (Templates.tla, every history replayed into TemplateLookup, a sample end to end)
+    from .. import templatescheck
+    if ctx.quick:
+        ctx.extra["templates"] = templatescheck.run(ctx, 3, ["a.html", "A.HTML", "a.css", "d", "d/x.css", "D/x.css"], [0, 1, 2], 25)
+    else:
+        ctx.extra["templates"] = templatescheck.run(ctx, 4, ["a.html", "A.HTML", "a.css", "A.css", "d", "D", "d/x.css", "D/x.css", "d/x.html", "d.html", "d.html/y.css"], [0, 1, 2], 400)
     # ---- negative control: a run cut before the inventory must be rejected by TLC
     good = next((t for t in traces if t["ev"] and t["ev"][-1]["k"] == "exit"), None)
     if good is None:
@@ -504,6 +510,14 @@ def run(ctx: Ctx) -> int:
 
 def replay(ctx: Ctx, path: str) -> int:
     w = json.load(open(path))
+    if w.get("origin", {}).get("family") == "templates":
+        from .. import templatescheck
+        bad = templatescheck.replay_witness(ctx, w["origin"]["history"])
+        print("replay:", "still violated: " + ",".join(bad) if bad else "holds now")
+        if bad:
+            print(f"VIOLATION property=C01 replay={path}")
+        ctx.cleanup()
+        return 1 if bad else 0
     if w.get("origin", {}).get("family") == "outdir":
         from .. import outdircheck
         bad = outdircheck.replay_witness(ctx, w["origin"]["history"])
